@@ -89,6 +89,9 @@ const (
 
 	RtcpHeaderLength = 4
 
+	// RtcpSrMinLength header, ssrc of sender and the sender info block; what ParseSr reads
+	RtcpSrMinLength = 28
+
 	RtcpVersion = 2
 )
 
